@@ -306,3 +306,7 @@ c: [1, 2]
         );
     }
 }
+
+#[cfg(kani)]
+#[path = "/verif/kani/direct/encoding_harness.rs"]
+pub(crate) mod verif_harness;
